@@ -7,6 +7,8 @@ R1.2 CONST-MUTATION  = R13.4 restricted to Polyhedron: const members strip const
 R1.3 PENDING-PAIR    every insert_pending is followed by the matching set_*_pending
 R1.5 SAT-ORDER       after the non-pending rows of a description are sorted, the saturation matrix that
                      was not carried along is no longer claimed up to date
+R1.6 SORTED-CLAIM    Linear_System members that edit stored rows in place update `sorted` (or are tabled
+                     order-preserving)
 R1.4 PRECONDITIONS   every asserted lazy-state precondition (nothing pending, description up to
                      date) is entailed, along every CFG path, by the state of the object handed over
 Correctness of conversion / minimization / simplification and of every query's arithmetic is not decided.
@@ -152,6 +154,65 @@ def r1_5(ctx, fx):
     ctx.floor(rid, n, 10, "sort events x saturation claims")
 
 
+SORTED_PRESERVING = {
+    "shift_space_dimensions": "inserts the same number of zero coefficients at the same position of every row: the lexicographic order of the rows is unchanged",
+    "set_space_dimension_no_ok": "appends zero coefficients to, or removes trailing coefficients from, every row: rows compare as before up to the cut, so a sorted system stays (non-strictly) sorted",
+    "mark_as_necessarily_closed": "removes the trailing epsilon coefficient of every row (see set_space_dimension_no_ok)",
+    "mark_as_not_necessarily_closed": "appends the epsilon coefficient to every row",
+    "set_topology": "changes the topology tag of the rows, not their coefficients",
+    "set_representation": "changes the storage of the rows, not their coefficients",
+    "insert_pending_no_ok": "the row edited is the new pending row; `sorted` speaks about the non-pending rows only",
+    "insert_no_ok": "updates `sorted` itself by comparing the new row with its predecessor",
+    "m_swap": "swaps the flag together with the rows",
+    "unset_pending_rows": "only moves the pending boundary",
+    "ascii_load": "loads the flag from the dump",
+}
+
+
+def r1_6(ctx):
+    from pplv import effects as E
+    rid = "R1.6"
+    ctx.rule(rid, "sorted claim of Linear_System: `sorted` says that the non-pending rows are in lexicographic order (operator== of polyhedra, merge_rows_assign and the conversion skip sorting when it is set). In every member of Linear_System<Row> that edits the coefficients of a stored row in place (a non-const member applied to an element of `rows`), every path from the edit to the exit updates `sorted` (assignment, set_sorted(), or a member that re-establishes it), unless the member is tabled as order-preserving with its reason")
+    fx = ctx.extract([F.driver_unit("domains.cc", file_re=r"Linear_System_(templates|inlines)\.hh")])
+    n = 0
+    seen = set()
+    for f in fx.functions:
+        if f.clsn != "Linear_System" or f.flag("pattern") or not f.cfg or f.kind in ("ctor", "dtor") or (f.relfile, f.line) in seen:
+            continue
+        seen.add((f.relfile, f.line))
+        edits = []
+        for c in f.walk():
+            if c["k"] == "mcall" and not c.get("cconst") and f.call_obj(c) is not None:
+                o = f.call_obj(c)
+                r = f.root(o)
+                if r == ("this", "rows") and o["k"] != "member" and f.call_name(c) not in ("m_swap", "swap"):
+                    edits.append(c)      # a member of an ELEMENT of rows (rows[i].m(...), row reference)
+        if not edits:
+            continue
+        n += 1
+        inst = "Linear_System::%s/%d" % (f.name, len(f.params))
+        wr_sorted = set(wn["i"] for wn, r, how in E.writes(f) if r == ("this", "sorted"))
+
+        def updates(y):
+            if y["i"] in wr_sorted:
+                return True
+            return y["k"] == "mcall" and f.call_name(y) in ("set_sorted", "sort_rows", "sort_and_remove_with_sat", "clear", "simplify", "gauss", "back_substitute", "insert_no_ok", "insert") \
+                and (f.call_obj(y) is None or f.root(f.call_obj(y)) == ("this",))
+        bad = None
+        for e in edits:
+            p = flow.must_follow(f, e, updates)
+            if p is not None:
+                bad = (e, p)
+                break
+        if bad is None:
+            ctx.ok(rid, inst, f.where())
+        elif f.name in SORTED_PRESERVING:
+            ctx.excepted(rid, inst, f.where(bad[0]), SORTED_PRESERVING[f.name])
+        else:
+            ctx.violation(rid, inst, f.where(bad[0]), "`%s` changes the coefficients of stored rows but a path reaches the exit with `sorted` untouched (%s): a system that is no longer in order keeps claiming it is" % (f.text(bad[0])[:50], flow.render_path(f, bad[1])))
+    ctx.floor(rid, n, 8, "Linear_System members editing stored rows in place")
+
+
 PENDING = {"con_sys": "set_constraints_pending", "gen_sys": "set_generators_pending"}
 
 
@@ -217,6 +278,7 @@ def run(ctx):
     r1_3(ctx, fx)
     r1_4(ctx)
     r1_5(ctx, fx)
+    r1_6(ctx)
     from rules import c13
     ctx.rule("R13.4", "see C13")
     c13.r13_4(ctx)
